@@ -2,6 +2,7 @@
 C01 — Replicas of a datatype converge once they have the same operations.
 -/
 import Orda.Proofs.MapCounter
+import Orda.Proofs.Rga
 namespace Orda.Props.C01
 open Orda
 
@@ -30,5 +31,11 @@ theorem map_wf_reachable (ops : List Op) : (mapApplyAll LwwMap.empty ops).WF := 
 theorem counter_converges (ops ops' : List Op) (hp : ops.Perm ops') :
     ops.foldl counterApply 0 = ops'.foldl counterApply 0 :=
   counter_converge ops ops' hp
+
+/-- list: two replicas that applied the same insert operations, each in ANY causal order (batches of
+    any length, any interleaving the server log order allows), hold the same sequence of elements -/
+theorem list_converges (ops ops' : List InsOp) (hp : ops.Perm ops') (hc : InsCausal ops) (hc' : InsCausal ops') :
+    (Rga.empty.applyAllIns ops).ids = (Rga.empty.applyAllIns ops').ids :=
+  rga_converge ops ops' hp hc hc'
 
 end Orda.Props.C01
